@@ -182,6 +182,34 @@ CHECKS.update({
     },
 })
 
+_FSM_NOTE = ('deferToThread is replaced by scheduler-owned virtual threads (body and Deferred delivery are separate '
+             'explorer events); scan/db/build (_pipeline), git reload (_reload) and file rotation (_archive) are reduced to '
+             'their FSM-relevant tail; ports, GUI, logging and farm.plow are no-ops; byte-code level preemption inside one '
+             'condition evaluation is not explored')
+CHECKS.update({
+    'C10': {
+        'level': 'model_checking', 'design_ref': 'DESIGN.md section 5 (C10)',
+        'technique': 'explicit-state exploration of the real FSM with virtual threads; illegal-trigger probe and background-step drain in every state',
+        'text': 'State graph of the real state.FSM (non-doctest branches) explored breadth first to a fixpoint: boot, both '
+        'submit Process flavours (steps 1, 3, failure), farm.dispatch archive trigger, cmd_reset, run/deliver of every '
+        'background thread in every order. Every state change is an edge of state.dot (parsed independently), archiving '
+        'returns to where it came from, at rest the state is running or gitting with transitioning active, active is '
+        'declared only at rest in running; in every state every trigger the dot file forbids must raise MachineError and '
+        'leave everything identical, and draining the outstanding background steps must reach rest.',
+        'note': _FSM_NOTE + '; bounds: <=2 submissions, <=1 new-data event, <=1 user reset per history (thorough: more).',
+    },
+    'C12': {
+        'level': 'model_checking', 'design_ref': 'DESIGN.md section 5 (C12)',
+        'technique': 'explicit-state exploration of the FSM with real poller threads under a baton scheduler, safety monitor on update_trigger + drain-and-run liveness probe in every state',
+        'text': 'State graph of the real FSM + the three waiter pollers as real threads (one loop iteration per step) + the '
+        'real submit Process steps + a work queue driven only through real scheduler/farm calls. At every update_trigger '
+        'call the condition of the strongest priority submitted since the last reset holds at that instant, the call is '
+        'accepted, at most one per reload cycle; refused submissions change nothing; from every state with an accepted '
+        'submission outstanding, draining the work and running every waiter reaches update_trigger.',
+        'note': _FSM_NOTE + '; bounds: (2 submissions, 1 run request, 2 reload cycles) and (1 submission, 3 run requests).',
+    },
+})
+
 _PENDING = 'check not built yet in this session (planned in DESIGN.md); will move to checks when it exists'
 NOT_APPLICABLE = {
     pid: _PENDING
